@@ -117,8 +117,19 @@ def main_run(cid, tier, seed, jobs=None, replay=None):
         case = json.loads(Path(replay).read_text())
         case = case.get("case", case)
         from vf import worker
+        import shutil
 
-        res = worker.run_one(mod, case, tier)
+        # a replay gets the same environment as a case of a normal run: its own scratch directory and the shared
+        # fixtures the check builds in prepare()
+        scratch0 = ROOT / ".scratch" / f"{cid}-replay-{os.getpid()}"
+        scratch0.mkdir(parents=True, exist_ok=True)
+        os.environ["VF_SCRATCH"] = str(scratch0)
+        try:
+            if hasattr(mod, "prepare"):
+                mod.prepare(tier, seed, scratch0)
+            res = worker.run_one(mod, case, tier)
+        finally:
+            shutil.rmtree(scratch0, ignore_errors=True)
         print(json.dumps(res, indent=1, default=str)[:20000])
         vs = res.get("violations") or []
         for v in vs:
